@@ -14,7 +14,7 @@ TALPHA = ["a", "b", "c", ""]
 
 
 def main(tier=None):
-    c = Check("C07", ["Wasp.Properties.C07"], tier)
+    c = Check("C07", ["Wasp.Properties.C07", "Wasp.Properties.E2E", "Wasp.Properties.E2ERetainWill"], tier)
     c.build()
     rng = c.rng
     samples = []
